@@ -66,6 +66,27 @@ def run(ctx):
                 _sh.copy(m.group(1), keep)
             C.add_violation(ctx, sig, _re2.sub(r"[0-9a-f]{60,}", "<bytes>", msg)[:400],
                             "# C10 violation on a file the library did not write (image kept as %s): open it permissively and make the call named below\n# %s\n" % (keep, msg[:1500]))
+        # damaged files: every call of a mutating history on an accepted corrupted image that is answered with
+        # one of the three refusal kinds is judged the same way (bytes before = bytes after)
+        keepd = R.scratch(ctx, "refkeep")
+        rc2, out2 = C.harness(["damage", "--seed", ctx.seed + 9, "--bases", rlist if len(files) else blist, "--count", 3000 if quick else 150000, "--max-ops", 12, "--keepdir", keepd], timeout=20000)
+        dstat, dhist, _ = C.parse_stats(out2)
+        for l in out2.splitlines():
+            if not l.startswith("REFUSED-EFFECT "):
+                continue
+            mm = _re2.search(r"\): (\S+) .*? was answered `err (\w+)", l)
+            sig = "damaged-refusal:%s:%s:bytes-changed" % ((mm.group(1) if mm else "?"), (mm.group(2) if mm else "?"))
+            im = _re2.search(r"\[image (\S+) history (\S+)\]", l)
+            text, keep = "", None
+            if im and _os.path.exists(im.group(1)):
+                keep = _os.path.join(ctx.replaydir, sig.replace(":", "_") + ".cfb")
+                _sh.copy(im.group(1), keep)
+                text = open(im.group(2)).read() if _os.path.exists(im.group(2)) else ""
+            C.add_violation(ctx, sig, _re2.sub(r"[0-9a-f]{60,}", "<bytes>", l)[:400],
+                            "# C10 violation on a damaged file that permissive open accepts (image kept as %s): open it permissively and make the calls below; the last one is answered with a refusal kind although it changed the bytes\n# %s\n# replay: harness damage --replay <image> --history <this file>\n%s" % (keep, _re2.sub(r"[0-9a-f]{60,}", "<bytes>", l)[:1500], text))
+        total_ops += dstat.get("ops", 0)
+        hist["damaged:accepted-images"] = dstat.get("accepted", 0)
+        hist["damaged:refused-call-changed-bytes"] = dhist.get("refused-call-changed-bytes", 0)
         total_ops += rstat.get("refusal_calls", 0)
         hist["foreign:images"] = rstat.get("refusal_images", 0)
         hist["foreign:refused"] = rstat.get("refused", 0)
@@ -100,7 +121,7 @@ def run(ctx):
         "evaluations": total_ops,
         "distinct_nontrivial": distinct,
         "refused_calls_checked": refusals,
-        "rule": "API histories with ~40% of the calls aimed at refusals of every class (missing parent, stream as parent, wrong type, existing name, non-empty storage, root removal, escaping path, invalid name) at random points; after every refused call the backing bytes are compared with the bytes before it (oracle) and model and implementation are compared at levels O and D; refused seeks through handle scripts (O+H); refusals of 16 kinds aimed at the entries of deviated images (every documented tolerated deviation) and of synthesised foreign layouts, bytes compared around each. distinct = distinct history hashes",
+        "rule": "API histories with ~40% of the calls aimed at refusals of every class (missing parent, stream as parent, wrong type, existing name, non-empty storage, root removal, escaping path, invalid name) at random points; after every refused call the backing bytes are compared with the bytes before it (oracle) and model and implementation are compared at levels O and D; refused seeks through handle scripts (O+H); refusals of 16 kinds aimed at the entries of deviated images (every documented tolerated deviation) and of synthesised foreign layouts, bytes compared around each; mutating histories on corrupted images that permissive open accepts, every call answered with a refusal kind judged the same way. distinct = distinct history hashes",
         "samples": samples,
         "traces_validated_against_impl": total_h,
         "histogram": hist,
